@@ -15,7 +15,10 @@ import (
 )
 
 var c13TagSets = []map[string]string{nil, {}, {"a": "b"}, {"a": "b=c"}, {"a=b": "c"}, {"a": "b", "c": "d"}, {"x=y": ""}, {"x": "y="},
-	{"t01": "v", "t02": "v", "t03": "v", "t04": "v", "t05": "v", "t06": "v", "t07": "v", "t08": "v", "t09": "v", "t10": "v", "t11": "v", "t12": "v"}}
+	{"t01": "v", "t02": "v", "t03": "v", "t04": "v", "t05": "v", "t06": "v", "t07": "v", "t08": "v", "t09": "v", "t10": "v", "t11": "v", "t12": "v"},
+	// 8 and 7 tags: with the two bucket tags of a histogram sample just above / at the capacity of a pooled tag slice
+	{"u1": "v", "u2": "v", "u3": "v", "u4": "v", "u5": "v", "u6": "v", "u7": "v", "u8": "v"},
+	{"w1": "v", "w2": "v", "w3": "v", "w4": "v", "w5": "v", "w6": "v", "w7": "v"}}
 
 // c13ExtraCommon: further common tags of the configuration under test (more than a pooled tag slice of the reporter holds).
 var c13ExtraCommon map[string]string
@@ -135,6 +138,11 @@ func c13Alphabet(full bool) []string {
 	}
 	// the empty string is a metric name like any other
 	a = append(a, "alloc counter EMPTY tags0", "alloc timer EMPTY tags2", "alloc vhist EMPTY tags0")
+	if !full {
+		a = append(a, "alloc vhist n tags9", "alloc dhist m tags10")
+	} else {
+		a = append(a, "alloc dhist m tags9", "alloc dhist m tags10")
+	}
 	for h := 0; h < 3; h++ {
 		for v := 0; v < 4; v++ {
 			a = append(a, fmt.Sprintf("report h%d v%d", h, v))
@@ -174,7 +182,8 @@ func c13Run(kind string, ndest, queue, ncommon int, alphabet []string, hist []in
 			return
 		}
 		var hs []*c13Handle
-		vb, db := tally.ValueBuckets{1, 2}, tally.DurationBuckets{time.Second}
+		// (bounds handed over unsorted: ids and ranges follow the sorted bounds, not the caller's order)
+		vb, db := tally.ValueBuckets{2, 1}, tally.DurationBuckets{2 * time.Second, time.Second}
 		for _, op := range hist {
 			steps++
 			var a, b, c, d string
@@ -228,9 +237,9 @@ func c13Run(kind string, ndest, queue, ncommon int, alphabet []string, hist []in
 					h.h.ValueBucket(0, ups[vi]).ReportSamples(c13Ints[vi])
 					want = append(want, wantKey(h.name, 1, c13Ints[vi], 0, 0, h.tags, fmt.Sprintf("%q=%q", "bucketid", ids[vi]), fmt.Sprintf("%q=%q", "bucket", names[vi])))
 				case "dhist":
-					ups := []time.Duration{time.Second, math.MaxInt64, time.Second, math.MaxInt64}
-					ids := []string{"0000", "0001", "0000", "0001"}
-					names := []string{"-infinity-1s", "1s-infinity", "-infinity-1s", "1s-infinity"}
+					ups := []time.Duration{time.Second, 2 * time.Second, math.MaxInt64, time.Second}
+					ids := []string{"0000", "0001", "0002", "0000"}
+					names := []string{"-infinity-1s", "1s-2s", "2s-infinity", "-infinity-1s"}
 					h.h.DurationBucket(0, ups[vi]).ReportSamples(c13Ints[vi])
 					want = append(want, wantKey(h.name, 1, c13Ints[vi], 0, 0, h.tags, fmt.Sprintf("%q=%q", "bucketid", ids[vi]), fmt.Sprintf("%q=%q", "bucket", names[vi])))
 				}
